@@ -175,7 +175,7 @@ def follower_facts(chk):
         chk.inconclusive.append('LogState::catlog not identified in the bin MIR (%r)' % (name,))
         return
     LL = 3 if chk.thorough() else 2
-    NL = 3 if chk.thorough() else 2
+    NL = 2
     MAXP = 3
     chk.bounds['follower'] = {'lines_per_log': NL, 'bytes_per_line': LL, 'fragments_per_line': '1..%d (every cut)' % MAXP,
                               'nested_targets': 1, 'alphabet': 'symbolic ASCII without newline, "@" and white space',
